@@ -10,6 +10,7 @@ import GoZero.C16.ProofsCache4
 import GoZero.C16.ProofsLru
 import GoZero.C16.ProofsConcObjs
 import GoZero.C16.ProofsConcTake
+import GoZero.C16.ProofsR4
 import GoZero.C07.Props
 namespace GoZero.C16
 
@@ -694,5 +695,83 @@ theorem pinned_expiry_callback_deletes_later_set :
 /-- `tick` = `fire` followed at once by the callbacks -/
 theorem tick_is_fire_then_callbacks {T : Type} (ts : TStep T) (c : CacheG T) :
     (CacheG.tick ts c).1 = CacheG.expire ts (CacheG.fire ts c).1 (CacheG.fire ts c).2 := rfl
+
+/-! ## Round 4: end-to-end clause theorems -/
+
+/-- **Clause "the Cache returns the latest value set for a key unless it was deleted, has expired, or was evicted" —
+end to end, for every history.**  For every limit (0 = no LRU), every timer mechanism, every history of
+Set / Get / Del / Take / tick from the empty cache and every key: `Get k` returns exactly `Spec.latestAlive`, which is
+computed from the operations and from what they *reported* alone — the value of the last `Set k` (or of the last `Take k`
+that loaded successfully), unless a `Del k` came later or a later operation reported `k` evicted or expired.  No side
+condition on the history (the earlier `cache_get_latest_unless_gone` needed one that does not address `k`). -/
+theorem cache_get_is_latest_alive {T : Type} (ts : TStep T) (limit : Nat) (x : T) (ops : List COp) (k : Nat) :
+    (CacheG.get ts (CacheG.after ts { limit := limit, data := [], lru := [], timers := x } ops) k).2.result
+      = Spec.latestAlive k none ops (CacheG.run ts { limit := limit, data := [], lru := [], timers := x } ops) := by
+  rw [(take_loads_only_on_miss ts _ k 0 false 0).2.2]
+  exact after_lookup ts ops _ (cache_new_inv limit x) k
+
+/-- the same for the model of the code (map + keyLru + C12 timing wheel with any number of slots) -/
+theorem cache_code_get_is_latest_alive (limit slots : Nat) (ops : List COp) (k : Nat) :
+    (CacheG.get C12.step (CacheG.after C12.step (Cache.new limit slots) ops) k).2.result
+      = Spec.latestAlive k none ops (CacheG.run C12.step (Cache.new limit slots) ops) :=
+  cache_get_is_latest_alive C12.step limit (C12.TW.init slots) ops k
+
+/-- **Clause "Take calls the loader only on a miss" — end to end**: after any history, `Take k` calls the loader iff
+the latest value set for `k` is not alive any more (or never was); otherwise it returns that value without loading. -/
+theorem cache_take_loads_iff_not_alive {T : Type} (ts : TStep T) (limit : Nat) (x : T) (ops : List COp)
+    (k v : Nat) (f : Bool) (t : Nat) :
+    let c0 : CacheG T := { limit := limit, data := [], lru := [], timers := x }
+    ((CacheG.take ts (CacheG.after ts c0 ops) k v f t).2.loaded = true
+        ↔ Spec.latestAlive k none ops (CacheG.run ts c0 ops) = none)
+    ∧ (∀ y, Spec.latestAlive k none ops (CacheG.run ts c0 ops) = some y →
+        (CacheG.take ts (CacheG.after ts c0 ops) k v f t).2.result = some y) := by
+  intro c0
+  have h := take_loads_only_on_miss ts (CacheG.after ts c0 ops) k v f t
+  rw [after_lookup ts ops c0 (cache_new_inv limit x) k] at h
+  exact ⟨h.1, h.2.1⟩
+
+/-- limit 2, one history with every way of losing an entry: key 1 evicted by the third Set, key 2 deleted, key 3
+expired at the second tick, key 4 alive — and a `Take` loads only for the lost keys -/
+example :
+    let ops : List COp := [.set 1 10 9, .set 2 20 9, .set 3 30 2, .del 2, .set 4 40 9, .tick, .tick]
+    let outs := CacheG.run C12.step (Cache.new 2 300) ops
+    outs.map (fun o => (o.evicted, o.expired)) = [([], []), ([], []), ([1], []), ([], []), ([], []), ([], []), ([], [3])]
+    ∧ [1, 2, 3, 4].map (fun k => Spec.latestAlive k none ops outs) = [none, none, none, some 40]
+    ∧ [1, 2, 3, 4].map (fun k => (CacheG.take C12.step (CacheG.after C12.step (Cache.new 2 300) ops) k 99 false 5).2.loaded)
+        = [true, true, true, false] := by decide
+
+/-- `WithLimit(1)`: every new key evicts the previous one; `WithLimit(0)` (and negative limits, `tie_cacheLimitGuard`):
+nothing is ever evicted -/
+example : ((CacheG.run C12.step (Cache.new 1 300) [.set 1 10 9, .set 2 20 9, .set 2 21 9, .set 3 30 9]).map (·.evicted)
+      = [[], [1], [], [2]])
+    ∧ ((CacheG.run C12.step (Cache.new 0 300) [.set 1 10 9, .set 2 20 9, .set 3 30 9, .get 1]).map (·.evicted)
+      = [[], [], [], []]) := by decide
+
+/-- **Queue: the representation invariant holds in every reachable state** (head inside the buffer, count ≤ length,
+tail = head + count modulo the length) — after any number of expansions, with any wrapped head.  This is the
+hypothesis under which the Tie proves the translated growth block equal to `Queue.grow` (`tie_queueGrow`). -/
+theorem queue_reachable_inv (size : Nat) (hs : 1 ≤ size) (ops : List QOp) : ((Queue.new size).after ops).Inv :=
+  Queue.inv_after ops _ (Queue.inv_new size hs)
+
+/-- size 2, three expansions, each with a different wrapped head -/
+example : ((Queue.new 2).after [.put 1, .put 2, .take, .put 3, .put 4, .take, .take, .put 5, .put 6, .put 7, .put 8,
+      .take, .put 9, .put 10, .put 11]).elems.length = 8
+    ∧ Queue.run (Queue.new 2) [.put 1, .put 2, .take, .put 3, .put 4, .take, .take, .put 5, .put 6, .put 7, .put 8,
+      .take, .put 9, .put 10, .put 11, .take, .take, .take, .take, .take, .take, .take, .take]
+      = [.unit, .unit, .val (some 1), .unit, .unit, .val (some 2), .val (some 3), .unit, .unit, .unit, .unit,
+         .val (some 4), .unit, .unit, .unit, .val (some 5), .val (some 6), .val (some 7), .val (some 8), .val (some 9),
+         .val (some 10), .val (some 11), .val none] := by decide
+
+/-- **Set: the variadic adds** (`Add(i ...any)`, `AddInt(ii ...int)`, …: `GSet.addMany`) after any history are the
+mathematical set with all the elements added: membership is `setMemAfter` of the history extended by one `add` per
+element, and the key list stays duplicate-free. -/
+theorem set_variadic_add_refines_finset (managed : Bool) (pre : List SetOp) (xs : List (Nat × Nat)) (y : Nat × Nat) :
+    ((((GSet.new managed).run pre).addMany xs).contains y = Spec.setMemAfter (pre ++ xs.map SetOp.add) y)
+    ∧ (((GSet.new managed).run pre).addMany xs).data.Nodup := by
+  rw [GSet.addMany_eq_run, ← GSet.run_append]
+  exact ⟨(set_refines_finset managed _ y).1, (set_refines_finset managed _ y).2.1⟩
+
+example : (((GSet.new true).run [.add (2, 1), .remove (2, 1)]).addMany [(2, 5), (2, 1), (2, 5), (3, 7)]).count = 3
+    ∧ (((GSet.new true).run [.add (2, 1), .remove (2, 1)]).addMany [(2, 5), (2, 1), (2, 5), (3, 7)]).tp = 2 := by decide
 
 end GoZero.C16
